@@ -205,6 +205,17 @@ func vpAnySeq(name string, n int) []byte {
 // integer matrix over a k-letter alphabet, 1..6 = shipped protein matrices,
 // 7 = Levenshtein over all bytes.
 func vpInputs(local bool) (a, b []byte, m SubstitutionMatrix) {
+	a, b, m = vpInputs0(local)
+	if vpCaseOr("shared", 0) == 1 {
+		// both sequences cut from one buffer, a directly before b: code that
+		// appends to a writes into b
+		c := vpCarve(a, b)
+		a, b = c[0], c[1]
+	}
+	return a, b, m
+}
+
+func vpInputs0(local bool) (a, b []byte, m SubstitutionMatrix) {
 	n, mm, which := vpCase("n"), vpCase("m"), vpCase("matrix")
 	switch {
 	case which == 0 && local:
